@@ -78,7 +78,7 @@ def _dir_pipeline(pl, sd, fix, info, cid):
             body = b"<!doctype html><title>t</title>" + body
         open(path, "wb").write(body)
         files.append({"rel": b(n), "body": list(body)})
-    origin = "https://example.com:8443" if p1["base"] == "port" else "https://example.com"
+    origin = {"port": "https://example.com:8443", "otherhost": "https://other.example"}.get(p1["base"], "https://example.com")
     base = origin + ("/app/v1/" if p1["base"] == "sub" else "/")
     out = os.path.join(sd, "out.wbn")
     args = ["-dir", d, "-baseURL", base, "-version", p1["ver"], "-o", out]
@@ -87,7 +87,7 @@ def _dir_pipeline(pl, sd, fix, info, cid):
     if p1.get("override") == "variants":
         args += ["-headerOverride", "Variants: Accept-Language;en;fr"]
     rc, so, se = run("gen-bundle", args, sd)
-    ev = {"case": cid, "kind": "dirbundle", "ver": p1["ver"], "names": p1["names"], "basepath": b(base[len(origin):]), "origin": b(origin), "files": files,
+    ev = {"case": cid, "kind": "dirbundle", "ver": p1["ver"], "names": p1["names"], "basepath": b(base[len(origin):]), "origin": b(origin), "covered": p1["base"] != "otherhost", "files": files,
           "gen_exit": rc, "file": list(read(out)), "sign": "none", "dump_exit": -1, "sign_exit": -1, "dump2_exit": -1,
           "marks": {"signed": 0, "notsigned": 0, "verr": 0, "sigerr": 0}, "stderr": se.decode("latin1")[-300:]}
     events = [ev]
@@ -221,6 +221,29 @@ def ib_cli(rep, pid):
                 sd = vlib.fresh(os.path.join(scratch, "ib%d" % i))
                 events += [e for e in _dir_pipeline(pl, sd, fix, info, "ibcli%d" % i) if e["kind"] == "ibcli"]
                 shutil.rmtree(sd, ignore_errors=True)
+        # output on another filesystem than the scratch / temporary directory (a tool that stages its output elsewhere and
+        # renames it into place must stage it next to the destination)
+        shm = "/dev/shm"
+        try:
+            other = os.path.isdir(shm) and os.access(shm, os.W_OK) and os.stat(shm).st_dev != os.stat(scratch).st_dev
+        except OSError:
+            other = False
+        if other:
+            sd = os.path.join(shm, "verif-ibcli-%d" % os.getpid())
+            shutil.rmtree(sd, ignore_errors=True)
+            os.makedirs(sd)
+            old_tmp = os.environ.get("TMPDIR")
+            os.environ["TMPDIR"] = scratch
+            try:
+                pl = [{"tool": "gen-bundle -dir", "p": {"names": "plain", "ver": "b2", "base": "root", "override": "none"}},
+                      {"tool": "sign-bundle integrity-block", "p": {"keyform": "pkcs8"}}, {"tool": "sign-bundle dump-id", "p": {"keyform": "pkcs8"}}]
+                events += [e for e in _dir_pipeline(pl, sd, fix, info, "ibcli-otherfs") if e["kind"] == "ibcli"]
+            finally:
+                shutil.rmtree(sd, ignore_errors=True)
+                if old_tmp is None:
+                    os.environ.pop("TMPDIR", None)
+                else:
+                    os.environ["TMPDIR"] = old_tmp
     finally:
         STALE_ALWAYS = False
     outp = os.path.join(wd, "ibcli.ndjson")
